@@ -81,6 +81,9 @@ func evalChildMain() {
 	for {
 		var rq evalReq
 		if err := dec.Decode(&rq); err == io.EOF {
+			if p := os.Getenv("C14_QSTATS"); p != "" {
+				os.WriteFile(p, []byte(fmt.Sprintf("calls=%d spins=%d scans=%d lastscan=%s\n", qCalls, qSpins, qScans, qLast)), 0o644)
+			}
 			os.Exit(0)
 		} else if err != nil {
 			fmt.Fprintln(os.Stderr, "evalchild:", err)
@@ -110,16 +113,23 @@ func evalChildMain() {
 // before it is known that the call's goroutines ended without one (otherwise the death
 // of the process would be pinned on the next call). No timing: a library goroutine that
 // never ends is a hang, for the hang guard.
+var qCalls, qSpins, qScans int
+var qLast string
+
 func quiesce(baseline int) {
 	buf := make([]byte, 1<<16)
+	qCalls++
 	for spin := 0; ; spin++ {
 		if runtime.NumGoroutine() <= baseline {
 			return
 		}
+		qSpins++
 		if spin < 32 {
 			runtime.Gosched()
 			continue
 		}
+		qScans++
+		defer func() { qLast = string(buf) }()
 		var n int
 		for {
 			if n = runtime.Stack(buf, true); n < len(buf) {
@@ -184,63 +194,129 @@ func inconclusive(format string, a ...interface{}) {
 	os.Exit(2)
 }
 
-// isolated evaluates one case with each of the option lists in the child. When the child
-// dies of a panic, the option list at hand gets clause "panic-escaped" and the remaining
-// lists of this case are not run (verdict "", saying so).
+// isoJob is one case for the child: the option lists to run it with, and the group a
+// "panic-escaped" verdict of it is reported under.
+type isoJob struct {
+	c     interface{}
+	opts  []optSet
+	group string
+}
+
+// isolated evaluates one case with each of the option lists in the child.
 func isolated(kind string, c interface{}, opts []optSet) []evalRes {
-	res := make([]evalRes, 0, len(opts))
-	if len(opts) == 0 {
-		return res
-	}
-	if iso.cmd == nil {
-		if err := iso.start(); err != nil {
-			inconclusive("cannot start the evaluating process: %v", err)
-		}
-	}
-	raw, err := json.Marshal(c)
-	if err != nil {
-		inconclusive("%v", err)
-	}
-	line, _ := json.Marshal(evalReq{Kind: kind, Case: raw, Opts: opts})
-	_, werr := iso.in.Write(append(line, '\n'))
-	for werr == nil && len(res) < len(opts) {
-		b, err := iso.out.ReadBytes('\n')
+	return isolatedBatch(kind, []isoJob{{c: c, opts: opts}}, nil)[0]
+}
+
+// isolatedBatch evaluates the jobs, in order, in the child; the requests are written
+// ahead, so the child computes while the parent judges. When the child dies of a panic,
+// the option list at hand gets clause "panic-escaped", the remaining lists of that case
+// are not run (verdict "", saying so), and the child is started again for the jobs after
+// it. A job whose group already has such a verdict (in this batch, or reported earlier:
+// seen) is not run at all - it could only be collapsed into that report -: its entry in
+// the result is nil.
+func isolatedBatch(kind string, jobs []isoJob, seen func(group string) bool) [][]evalRes {
+	out := make([][]evalRes, len(jobs))
+	dead := map[string]bool{}
+	lines := make([][]byte, len(jobs))
+	raws := make([]json.RawMessage, len(jobs))
+	for j, job := range jobs {
+		raw, err := json.Marshal(job.c)
 		if err != nil {
+			inconclusive("%v", err)
+		}
+		raws[j] = raw
+		lines[j], _ = json.Marshal(evalReq{Kind: kind, Case: raw, Opts: job.opts})
+	}
+	for next := 0; next < len(jobs); {
+		var idx []int
+		for j := next; j < len(jobs); j++ {
+			g := jobs[j].group
+			if g != "" && (dead[g] || seen != nil && seen(g)) {
+				continue
+			}
+			if len(jobs[j].opts) == 0 {
+				out[j] = []evalRes{}
+				continue
+			}
+			idx = append(idx, j)
+		}
+		next = len(jobs)
+		if len(idx) == 0 {
 			break
 		}
-		var r evalRes
-		if err := json.Unmarshal(b, &r); err != nil {
-			inconclusive("the evaluating process answered %q", b)
+		if iso.cmd == nil {
+			if err := iso.start(); err != nil {
+				inconclusive("cannot start the evaluating process: %v", err)
+			}
 		}
-		res = append(res, r)
-		atomic.AddInt64(&progress, 1)
+		written := make(chan struct{})
+		go func(in io.Writer) {
+			defer close(written)
+			w := bufio.NewWriterSize(in, 1<<16)
+			for _, j := range idx {
+				w.Write(lines[j])
+				if err := w.WriteByte('\n'); err != nil {
+					return
+				}
+			}
+			w.Flush()
+		}(iso.in)
+		died := false
+		for _, j := range idx {
+			job := jobs[j]
+			res := make([]evalRes, 0, len(job.opts))
+			for len(res) < len(job.opts) {
+				b, err := iso.out.ReadBytes('\n')
+				if err != nil {
+					break
+				}
+				var r evalRes
+				if err := json.Unmarshal(b, &r); err != nil {
+					inconclusive("the evaluating process answered %q", b)
+				}
+				res = append(res, r)
+				atomic.AddInt64(&progress, 1)
+			}
+			if len(res) == len(job.opts) {
+				out[j] = res
+				continue
+			}
+			// the child is gone
+			iso.in.Close()
+			io.Copy(io.Discard, iso.out)
+			iso.cmd.Wait()
+			<-written
+			iso.cmd = nil
+			iso.Restarts++
+			stderr := iso.errBuf.String()
+			crash := goCrash(stderr)
+			if crash == "" {
+				inconclusive("the evaluating process ended without an answer for %s %s: %s", kind, raws[j], stderr)
+			}
+			culprit := job.opts[len(res)]
+			if os.Getenv("VERIF_DEBUG") != "" {
+				fmt.Fprintf(os.Stderr, "evaluating process died on %s %s opts=%s: %s\n", kind, raws[j], culprit, crash)
+			}
+			obs := fmt.Sprintf("opts=%s the process making this call died: %s", culprit, crash)
+			if at := crashFrame(stderr); at != "" {
+				obs += " at " + at
+			}
+			res = append(res, evalRes{escapedClause, obs})
+			for len(res) < len(job.opts) {
+				res = append(res, evalRes{"", "(not run: the process died on an earlier option list of this case)"})
+			}
+			out[j] = res
+			if job.group != "" {
+				dead[job.group] = true
+			}
+			next, died = j+1, true
+			break
+		}
+		if !died {
+			<-written
+		}
 	}
-	if len(res) == len(opts) {
-		return res
-	}
-	// the child is gone
-	iso.in.Close()
-	io.Copy(io.Discard, iso.out)
-	iso.cmd.Wait()
-	iso.cmd = nil
-	iso.Restarts++
-	stderr := iso.errBuf.String()
-	crash := goCrash(stderr)
-	if crash == "" {
-		inconclusive("the evaluating process ended without an answer for %s %s: %s", kind, raw, stderr)
-	}
-	if os.Getenv("VERIF_DEBUG") != "" {
-		fmt.Fprintf(os.Stderr, "evaluating process died on %s %s opts=%s: %s\n", kind, raw, opts[len(res)], crash)
-	}
-	obs := fmt.Sprintf("opts=%s the process making this call died: %s", opts[len(res)], crash)
-	if at := crashFrame(stderr); at != "" {
-		obs += " at " + at
-	}
-	res = append(res, evalRes{escapedClause, obs})
-	for len(res) < len(opts) {
-		res = append(res, evalRes{"", "(not run: the process died on an earlier option list of this case)"})
-	}
-	return res
+	return out
 }
 
 // crashFrame: the innermost frame of the library in the crash report's first goroutine.
